@@ -3,6 +3,8 @@ import json
 import datetime
 from functools import partial
 
+from tableschema import Field
+
 from ....helpers.extended_json import DATE_F_FORMAT
 
 
@@ -21,6 +23,31 @@ def comma_separated(x):
         if all(isinstance(i, (str, int, float)) for i in x):
             return ', '.join(str(i) for i in x)
     return json_dumps(x)
+
+
+def native_constraints(field):
+    # minimum / maximum / enum given as text (in the serialisation the field declares) -> native values
+    constraints = field.get('constraints')
+    native = {}
+    if isinstance(constraints, dict):
+        try:
+            caster = Field(dict(field, constraints={}))
+            for key in ('minimum', 'maximum', 'enum'):
+                value = constraints.get(key)
+                values = value if key == 'enum' else [value]
+                if isinstance(values, list) and any(isinstance(v, str) for v in values):
+                    values = [caster.cast_value(v, constraints=False) if isinstance(v, str) else v
+                              for v in values]
+                    native[key] = values if key == 'enum' else values[0]
+        except Exception:
+            return {}
+    return native
+
+
+def write_constraints(field, native, serializer):
+    for key, value in native.items():
+        field['constraints'][key] = \
+            [serializer(v) for v in value] if key == 'enum' else serializer(value)
 
 
 class FileFormat():
@@ -61,7 +88,12 @@ class FileFormat():
     def prepare_resource(cls, resource):
         schema = resource.descriptor['schema']
         for field in schema['fields']:
-            field.update(cls.PYTHON_DIALECT.get(field['type'], {}))
+            dialect = cls.PYTHON_DIALECT.get(field['type'], {})
+            if dialect:
+                # constraint values follow the serialisation the written file is declared with
+                native = native_constraints(field)
+                field.update(dialect)
+                write_constraints(field, native, cls.SERIALIZERS.get(field['type'], str))
         if isinstance(cls.NULL_VALUE, str) and schema.get('missingValues') == []:
             # nulls have to be written somehow: record the marker that is used
             schema['missingValues'] = [cls.NULL_VALUE]
